@@ -225,8 +225,14 @@ class TCPRegistryServer(RegistryServer):
 
     def _recv(self):
         sock2, _ = self.sock.accept()
-        addrinfo = sock2.getpeername()
-        data = sock2.recv(MAX_DGRAM_SIZE)
+        try:
+            # a client that connects and then stays silent must not stop the registry from serving others
+            sock2.settimeout(self.TIMEOUT)
+            addrinfo = sock2.getpeername()
+            data = sock2.recv(MAX_DGRAM_SIZE)
+        except (socket.error, socket.timeout):
+            sock2.close()
+            raise
         self._connected_sockets[addrinfo] = sock2
         return data, addrinfo
 
